@@ -56,7 +56,9 @@ fn run_call(kind: usize, text: &str, shared: &Source, c: &Config) -> String {
 /// dozens of them per seed.
 fn many_tiny_calls() {
     let nthreads = 3;
-    let docs: [&'static str; 3] = ["a  a\n", "= B\n", "#c( 3 )\n"];
+    // (two of the lines end in blanks outside ASCII - U+00A0, U+3000 -: whatever trims or measures
+    // text differently on a contended and an uncontended path shows here)
+    let docs: [&'static str; 3] = ["a  a\u{a0}\n", "= B\u{3000}\n", "#c( 3 )\n"];
     let cfgs = [cfg(80, 2, false), cfg(20, 4, true), cfg(120, 2, false)];
     let refs: Vec<String> = (0..nthreads).map(|t| Typstyle::new(cfgs[t].clone()).format_content(docs[t]).unwrap_or_else(|_| "<err>".into())).collect();
     let refs = Arc::new(refs);
